@@ -431,3 +431,4 @@ func classify(c Case, fail string) string {
 	}
 	return ""
 }
+func FuzzMount(f *testing.F) { propMount.Fuzz(f) }
